@@ -230,6 +230,103 @@ def executedSteps : List Step → Nat
     | .received _ .ok => 1 + executedSteps rest
     | _ => 1
 
+
+/-! ## which client does the exchange: `NewRedirectingClient` (components/guns/http/client.go)
+
+`redirect: false` gives `noRedirectClient`, whose `Do` IS `Transport.RoundTrip`: one exchange, the answer handed back as it
+came. `redirect: true` gives an `*http.Client` with the default policy: it follows 301 / 302 / 303 / 307 / 308 answers that
+carry a `Location`, sends at most ten requests, and gives up with a `*url.Error` of its own when the `Location` cannot be
+parsed or the limit is reached (net/http's documented behaviour: trusted, observed in the correspondence runs). -/
+
+/-- what the `Location` header of an answer says -/
+inductive Loc where
+  | absent
+  | leadsOn
+  | unparsable
+  | loops
+  deriving Repr, DecidableEq, Inhabited
+
+/-- one element of the chain of exchanges a shot may run through -/
+inductive Hop where
+  /-- `RoundTrip` returned a complete answer with this status and this `Location` -/
+  | answer (status : Nat) (loc : Loc)
+  /-- the exchange the chain ends with, as `RoundTrip` saw it -/
+  | last (o : HttpOutcome)
+  deriving Repr, DecidableEq, Inhabited
+
+/-- `redirectBehavior` of net/http for a request without a body -/
+def isRedirectStatus (st : Nat) : Bool := st == 301 || st == 302 || st == 303 || st == 307 || st == 308
+
+/-- `http.Client` gives up: `(nil | closed response, *url.Error{Err: errors.New(…)})` -/
+def clientGaveUp : HttpOutcome := .doErr (.urlError .other)
+
+/-- `noRedirectClient.Do`: `return c.Transport.RoundTrip(req)` -/
+def bareDo : List Hop → HttpOutcome
+  | [] => .doErr .other
+  | .answer st _ :: _ => .response st none
+  | .last o :: _ => o
+
+/-- `(*http.Client).Do` with the default `CheckRedirect`; `n`: requests it may still send, this one included -/
+def followDo : Nat → List Hop → HttpOutcome
+  | _, [] => .doErr .other
+  | _, .last o :: _ => o
+  | n, .answer st loc :: rest =>
+    if isRedirectStatus st then
+      match loc with
+      | .absent => .response st none
+      | .unparsable => clientGaveUp
+      | .loops => clientGaveUp
+      | .leadsOn => if n ≤ 1 then clientGaveUp else followDo (n - 1) rest
+    else .response st none
+
+/-- `defaultCheckRedirect`: "stopped after 10 redirects" -/
+def maxRequests : Nat := 10
+
+/-- `NewRedirectingClient(tr, redirect).Do` -/
+def clientDo (redirect : Bool) (hops : List Hop) : HttpOutcome :=
+  if redirect then followDo maxRequests hops else bareDo hops
+
+/-- NOT the code: an `*http.Client` whose `CheckRedirect` returns `http.ErrUseLastResponse`, used for `redirect: false`.
+`http.Client` parses the `Location` of a redirecting answer BEFORE it asks `CheckRedirect`, and gives up when that fails. -/
+def checkRedirectDo : List Hop → HttpOutcome
+  | [] => .doErr .other
+  | .last o :: _ => o
+  | .answer st loc :: _ =>
+    if isRedirectStatus st && loc == .unparsable then clientGaveUp else .response st none
+
+/-! ## pauses of a scenario step, and an instance cancelled during one
+
+`shootStep` reports the step's sample and THEN sleeps (`time.Sleep(step.Sleep)`): the pause cannot be interrupted and
+the step loop never looks at the instance's context, so a cancellation that arrives during a pause changes nothing about
+the samples of the shot. Two other designs of the pause are modelled for comparison. -/
+
+inductive PauseMode where
+  /-- the code: `time.Sleep` -/
+  | sleeps
+  /-- an interruptible pause that ends the shot quietly when the instance is cancelled -/
+  | stopsQuietly
+  /-- an interruptible pause that makes `shootStep` return an error when the instance is cancelled; the step loop hands
+  every error of `shootStep` to `reportErr` -/
+  | returnsError
+  deriving Repr, DecidableEq, Inhabited
+
+/-- The step loop with a cancellation arriving during the pause after step number `cancelAt` (`none`: never; the count
+runs down as the loop advances). -/
+def shootScenarioPaused (mode : PauseMode) (scn : String) : Option Nat → List Step → ShotResult
+  | _, [] => { reports := [] }
+  | c, s :: rest =>
+    match stepHttp scn s with
+    | (rs, true, _) =>
+      if c = some 0 then
+        match mode with
+        | .sleeps => let r := shootScenarioPaused mode scn none rest; { r with reports := rs ++ r.reports }
+        | .stopsQuietly => { reports := rs }
+        | .returnsError => { reports := rs ++ [errSample scn s.name] }
+      else
+        let r := shootScenarioPaused mode scn (c.map (· - 1)) rest
+        { r with reports := rs ++ r.reports }
+    | (rs, false, p) => { reports := rs, panicked := p }
+
 /-! ## the gRPC guns -/
 
 /-- `ConvertGrpcStatus` (the model's own copy; `Bridge.GrpcStatus` proves it equal to the regenerated switch) -/
